@@ -24,6 +24,54 @@ def site(fi, node=None):
     return 'geomdl/%s.py:%s in %s' % (fi.mod, getattr(node or fi.node, 'lineno', '?'), fi.key)
 
 
+def off1(m, run):
+    """SurfaceContainer.tessellate numbers the aggregate by adding running offsets to the ids of the elements' own vertex / face
+    objects (an in-place, cumulative update of objects owned by the elements' tessellators).  That is sound only if every element
+    is numbered afresh each time the aggregate is built: every call of the per-element worker is dominated by `kwargs['force'] = True`
+    or passes force=True, so the worker's elem.tessellate(**kwargs) cannot return the previous, already offset, mesh."""
+    from ..cfg import CFG
+    fi = m.cls('multi', 'SurfaceContainer').methods.get('tessellate')
+    if fi is None:
+        raise AnalysisError('multi.SurfaceContainer.tessellate not found')
+    tainted = set()
+    changed = True
+    while changed:
+        changed = False
+        for n in walk_no_nested(fi.node):
+            if isinstance(n, ast.For) and isinstance(n.target, ast.Name) and norm(n.iter) in ('self._elements', 'self') and n.target.id not in tainted:
+                tainted.add(n.target.id)
+                changed = True
+            if isinstance(n, ast.Assign) and isinstance(n.targets[0], ast.Name) and n.targets[0].id not in tainted \
+                    and any(isinstance(x, ast.Name) and x.id in tainted for x in ast.walk(n.value)):
+                tainted.add(n.targets[0].id)
+                changed = True
+    cumulative = [n for n in walk_no_nested(fi.node) if isinstance(n, ast.AugAssign) and isinstance(n.target, ast.Attribute)
+                  and any(isinstance(x, ast.Name) and x.id in tainted for x in ast.walk(n.target.value))]
+    if not cumulative:
+        run.ob('OFF1.offsets-on-fresh-numbering', fi.key, True, 'ids of element-owned objects are not updated cumulatively', site(fi))
+        return
+    cfg = CFG(fi.node)
+    workers = [c for c in walk_no_nested(fi.node) if isinstance(c, ast.Call) and any(
+        (isinstance(x, ast.Name) and x.id == 'process_tessellate') for x in ast.walk(c.func) if True) or
+        (isinstance(c, ast.Call) and norm(c.func) == 'partial' and c.args and norm(c.args[0]) == 'process_tessellate')]
+    if not workers:
+        raise AnalysisError('%s: per-element worker call not found' % fi.key)
+    kwname = fi.node.args.kwarg.arg if fi.node.args.kwarg else None
+
+    def forces(nd):
+        a = nd.ast
+        return isinstance(a, ast.Assign) and isinstance(a.targets[0], ast.Subscript) and norm(a.targets[0].value) == kwname \
+            and isinstance(a.targets[0].slice, ast.Constant) and a.targets[0].slice.value == 'force' and isinstance(a.value, ast.Constant) and a.value.value is True
+    for w in workers:
+        kwf = next((k.value for k in w.keywords if k.arg == 'force'), None)
+        ok = (isinstance(kwf, ast.Constant) and kwf.value is True) or cfg.dominated_by(cfg.node_of(w), forces)
+        run.ob('OFF1.offsets-on-fresh-numbering', '%s :: %s' % (fi.key, norm(w)[:50]), ok,
+               'elements are re-tessellated (force) before `%s` adds the offsets' % norm(cumulative[0])[:40] if ok else
+               '`%s` adds the running offset to ids of objects owned by the elements, but the elements are not forced to re-tessellate: when the aggregate is '
+               'rebuilt over still-tessellated elements (tessellate(delta=False) after add()/reset()) the offsets are added twice and ids are no longer consecutive'
+               % norm(cumulative[0])[:40], site(fi, w))
+
+
 def check(m, run):
     tm = m.func('_tessellate.make_triangle_mesh')
     qm = m.func('_tessellate.make_quad_mesh')
@@ -51,6 +99,7 @@ def check(m, run):
     st1(m, run)
     c17.ag5(m, run)
     wn1(m, run)
+    off1(m, run)
     try:
         from .. import skel_drivers
         skel_drivers.c15(m, run)
